@@ -11,7 +11,7 @@ TECH = "deterministic simulation with fault injection"
 CLAIMED = {
     "C19": dict(
         level="exploration",
-        text="Seeded simulation of a host that injects optimize (random root multisets incl. roots already on a stack or inside the retained prefix, duplicates, any order) / clone_data / allocations / symbol registrations / retention-point moves at step boundaries of running programs (and before the run starts) on the real BasicGarnishData, under random growth knobs and capacity limits; every root is read back structurally before/after each compaction and an uncompacted twin world must agree step for step. Sampling, not proof: a clean batch is evidence.",
+        text="Seeded simulation of a host that injects optimize (random root multisets incl. roots already on a stack or inside the retained prefix, duplicates, any order) / clone_data / allocations / symbol registrations / retention-point moves / in-place replacement of the current input value at step boundaries of running programs, and compaction inside the host's deferred-operation, external-apply and resolve callbacks, (and before the run starts) on the real BasicGarnishData, under random growth knobs and capacity limits; every root is read back structurally before/after each compaction and an uncompacted twin world must agree step for step. Sampling, not proof: a clean batch is evidence.",
         design="DESIGN.md §5 C19",
         note="Trusted: the scripted host stub, the structural reader (public getters only), the twin-run comparison; assumes hosts call retain_all_current_data after builds (the retention point may also move later, never below a build boundary). A refused optimize (Err) gives no verdict for that call.",
         technique=TECH + ": seeded compaction/clone schedule at step boundaries + store-full faults, twin-run and structural read-back oracles",
@@ -42,7 +42,7 @@ CLAIMED["C07"] = dict(
 )
 CLAIMED["C15"] = dict(
     level="exploration",
-    text="Every history of 1..4 operations over an 11-operation alphabet x 8 uniform block settings (initial size 0, 1, 2 x additive 1, 2, multiplicative 2) on BasicGarnishData is swept completely on every invocation; beyond that, seeded histories (3..400 operations) over the whole data-interface alphabet (52 operation kinds: every add_* / parse_add_*, composites, mixed keyed / plain lists, symbol-list merges, conversions, stacks, tables, push_object_to_data_block and the convenience adders outside the trait; boundary scalars and raw symbol values) against an abstract model of independent growable tables, on both shipped implementations; on BasicGarnishData every block gets its own initial size {0,1,2,3,10} and growth policy (FixedSize 1,2,3,7,10 / Multiplicative 2,3) and a quarter of runs a capacity limit; every address ever returned is read back (type, content, iterators, keyed lookup) together with all tables and stacks after every operation (sampled for long histories) and at the end; SimpleGarnishData's interning is checked at every add. The quantifier's 'exhaustively' is met for the 11-operation alphabet up to length 4; longer histories and the full alphabet are sampled.",
+    text="Every history of 1..5 operations (thorough tier: 1..6) over an 11-operation alphabet x 8 uniform block settings (initial size 0, 1, 2 x additive 1, 2, multiplicative 2) on BasicGarnishData is swept completely on every invocation; beyond that, seeded histories (3..400 operations) over the whole data-interface alphabet (52 operation kinds: every add_* / parse_add_*, composites, mixed keyed / plain lists, symbol-list merges, conversions, stacks, tables, push_object_to_data_block and the convenience adders outside the trait; boundary scalars and raw symbol values) against an abstract model of independent growable tables, on both shipped implementations; on BasicGarnishData every block gets its own initial size {0,1,2,3,10} and growth policy (FixedSize 1,2,3,7,10 / Multiplicative 2,3) and a quarter of runs a capacity limit; every address ever returned is read back (type, content, iterators, keyed lookup) together with all tables and stacks after every operation (sampled for long histories) and at the end; SimpleGarnishData's interning is checked at every add. The quantifier's 'exhaustively' is met for the 11-operation alphabet up to length 5 (6 in the thorough tier); longer histories and the full alphabet are sampled.",
     design="DESIGN.md §5 C15",
     note="Trusted: the abstract model, structural reader. Growth policies that cannot make progress are never configured. A refused operation may leave garbage at new addresses only.",
     technique=TECH + ": store-history simulation against a reference model with growth knobs and store-full faults",
@@ -50,7 +50,7 @@ CLAIMED["C15"] = dict(
 
 CLAIMED["C08"] = dict(
     level="exploration",
-    text="The defer_op protocol is an interaction with a second party, so it is simulated with a scripted, recording host: (A) the complete instruction x type-pair matrix (40 instructions, 43 representative values of all 20 data types incl. the host's custom type) is swept on every invocation under hosts {absent, declining, accepting, failing, accepting after a nested run, compacting-then-declining (Basic)} on both implementations — call count, instruction, operand identity and order, unit result, depth, use of the host's value, absent == declining, no call for defined pairs, the unsupported-types code never escaping, the program going on with the next instruction, the operands pending beneath left untouched; (B) seeded programs whose identifiers resolve to values of every type are monitored step by step against the same table. The matrix part is exhaustive over its finite table; the program part samples.",
+    text="The defer_op protocol is an interaction with a second party, so it is simulated with a scripted, recording host: (A) the complete instruction x type-pair matrix (40 instructions, 43 representative values of all 20 data types incl. the host's custom type) is swept on every invocation under hosts {absent, declining, accepting, failing, accepting after a nested run, declining / accepting after an earlier offer on the same store was answered with Err, re-entering the runtime inside the callback with an undefined operation of its own (which must be offered too) then declining / accepting, compacting-then-declining (Basic)} on both implementations — call count, instruction, operand identity and order, unit result, depth, use of the host's value, absent == declining, no call for defined pairs, the unsupported-types code never escaping, the program going on with the next instruction, the operands pending beneath left untouched; (B) seeded programs whose identifiers resolve to values of every type are monitored step by step against the same table. The matrix part is exhaustive over its finite table; the program part samples.",
     design="DESIGN.md §5 C08",
     note="Trusted: spec/defined_ops.json (which combinations the language defines: recorded from the pinned runtime, compared by hand with the match arms, two hand corrections), the recording host, the structural reader. What a defined operation returns is not judged.",
     technique=TECH + ": scripted second party (host) with recorded call histories over the full operation matrix and seeded programs",
@@ -65,7 +65,7 @@ CLAIMED["C10"] = dict(
 )
 CLAIMED["C17"] = dict(
     level="exploration",
-    text="Seeded core-language programs with identifiers and externals at every operand position, run with inputs that provide a random subset of the identifiers (pair, keyed list, slice of a keyed list, concatenation, non-container) under hosts that resolve none / some / all, provide values or externals, decline, fail at the n-th call or churn; plus explicit minimal protocol scenarios on every invocation. The recorded resolve / apply history (order, count, symbols, external numbers, structural arguments, answers) and the final value must equal the reference evaluator's: input first, then exactly one host call, unit when declined, result used at exactly that occurrence.",
+    text="Seeded core-language programs with identifiers and externals at every operand position, run with inputs that provide a random subset of the identifiers (pair, keyed list, slice of a keyed list, concatenation, non-container) under hosts that resolve none / some / all, provide values or externals, decline, fail at the n-th call, churn or compact the store inside any callback (Basic), after earlier failed callbacks on the same store, and (Basic) with display names the host entered in the symbol table itself before the build; plus explicit minimal protocol scenarios on every invocation. The recorded resolve / apply history (order, count, symbols, external numbers, structural arguments, answers) and the final value must equal the reference evaluator's: input first, then exactly one host call, unit when declined, result used at exactly that occurrence.",
     design="DESIGN.md §5 C17, §4.1",
     note="Trusted: reference evaluator semantics, scripted recording host. External apply is exercised on BasicGarnishData only (SimpleGarnishData does not expose the hook). Keyed lookups in lists with unkeyed items / duplicate keys give no verdict (C16).",
     technique=TECH + ": scripted host (resolve/apply callbacks incl. failing and churning) with recorded call histories compared with a reference evaluator",
